@@ -6,11 +6,11 @@ _L = ["rmse", "rmsle", "linear_residuals", "smape", "rpd", "rmspe", "linear_fit"
       "rmse_points", "rmsle_points", "linear_residuals_points", "smape_points", "rpd_points", "rmspe_points",
       "linear_fit_points", "linear_transform_points", "linear_fit_transform#def", "linear_fit_transform_points#def"]
 DEDUCTIVE = [("metrics", "kneeliverse.metrics." + m) for m in _M] + [("metrics", "kneeliverse.linear_fit." + m) for m in _L] \
-    + [("metrics", "lemma:%s_symmetric" % m) for m in ("rmse", "residuals", "smape")]
+    + [("metrics", "lemma:%s_symmetric" % m) for m in ("rmse", "residuals", "smape")] + [("metrics", "lemma:residuals_nonneg")]
 EXPLANATION = ("Each metric's result is proved equal to its textbook formula (eps guard included) written independently with the spec fold "
                "Sum; equality of sums is by extensionality (pointwise side proofs). The linear-fit wrappers are proved to equal the metric "
                "applied to m*x+b through the callee contracts; the end-point fit passes through the first and last point. Mode R. "
-               "Symmetry of rmse, residuals and smape is proved as three lemmas over the postcondition formulas (Sum extensionality). "
+               "Symmetry of rmse, residuals and smape is proved as three lemmas over the postcondition formulas (Sum extensionality); residuals >= 0 and rmse >= 0 by induction on the sum's upper limit (lemma residuals_nonneg). "
                "Range consequences, best-fit R2 = squared Pearson correlation and lf.linear_r2 are covered by the bounded layer "
                "(exact rational oracle).")
 ASSUMPTIONS = ["mode R: 'to within floating-point rounding' is not decided by the proof; the bounded layer compares with exact rational evaluation at rel. tol. 1e-9",
